@@ -392,6 +392,7 @@ class C08Session(Session):
                 self._disarm()
             self.stats["variants"] += 1
             label = self._label(var)
+            self.stats["attempt." + label] += 1
             did_fire = bool(fired) or (var["kind"] == "env" and out != out0)
             if did_fire:
                 self.fault_fired(label)
